@@ -142,7 +142,16 @@ def gen_cases(rng, tier):
     for _ in range(n_ext):
         E = X.gen_ext(rng, tier, nkeys=rng.randint(1, 4), widen=rng.choice([0.0, 0.4]),
                       aff=X.gen_affine(rng, rng.choice(['dense', 'dense', 'perm', 'diag'])),
-                      patterns=X.PATTERNS[1:9] if rng.random() < 0.8 else None)
+                      patterns=X.BASE_PATTERNS[1:] if rng.random() < 0.8 else None)
+        if len(E['shape']) >= 4 and rng.random() < 0.6:
+            # make sure per-volume / per-(slice,time) layouts are frequent: they are where index arithmetic matters
+            d = X.dims(E)
+            ents = X.entry_map(E)
+            for name, pat in (('PerVolume', 'vol'), ('PerSliceTime', 'slice_time'), ('Irregular', 'irregular')):
+                enc = X.encode(rng, E['shape'], E['sdim'], X.gen_fn(rng, d, pat, alphabet=list(range(40))), 0.2)
+                if enc is not None:
+                    ents[name] = enc
+            E = X.mk_E(E['shape'], E['sdim'], E['aff'], ents)
         pert = rng.choice(PERTS)
         img = perturb(rng, E, pert)
         keys = [k for k, _, _ in E['entries']] + ['NoSuchKey']
